@@ -295,7 +295,7 @@ def traj_unit(h, fixed=None):
             h.fail('no-internal-error', f'{e.inst!r} at {e.inst.where}')
         else:
             h.ensure('refusal-names-the-unsupported-method',
-                     (h.exc_is(e, 'NotImplementedError') or h.exc_is(e, 'RuntimeError')) and emis.names_method(e, ec), note=repr(e.inst))
+                     (h.exc_is(e, 'NotImplementedError') or h.exc_is(e, 'RuntimeError')) and emis.names_method(e, ec, h), note=repr(e.inst))
         return
     ind, em = sv_data(h.getattr(r, 'indices')), sv_data(h.getattr(r, 'emissions'))
     tfb = to_real(h.getattr(r, 'fuel_burn'))
